@@ -1,4 +1,695 @@
-//! C19 — not built yet.
+//! C19 — joins implement the documented relational semantics, also when compiled.
+//! Correspondence of Model/JoinImpl.v and Model/JoinSpec.v with the plaintext evaluation of
+//! `Operation::Join` / `Operation::JoinWithColumnMasks` in /repo, a native reference join written
+//! from the documentation (graphs.rs:1847-2015), and the compiled secure join checked
+//! differentially against it (single global evaluator, several seeds).
+use crate::coqfmt::*;
 use crate::out::Out;
-pub const HEADER: &str = "From CC Require Import Base.Prelude.";
-pub fn run(_tier: &str, _seed: u64, _out: &mut Out) {}
+use crate::rng::Rng;
+use ciphercore_base::data_types::*;
+use ciphercore_base::data_values::Value;
+use ciphercore_base::evaluators::{evaluate_simple_evaluator, random_evaluate};
+use ciphercore_base::graphs::{create_context, Context, JoinType, Operation};
+use ciphercore_base::inline::inline_common::DepthOptimizationLevel;
+use ciphercore_base::inline::inline_ops::{InlineConfig, InlineMode};
+use ciphercore_base::mpc::mpc_compiler::{prepare_for_mpc_evaluation, IOStatus};
+use ciphercore_base::type_inference::NULL_HEADER;
+use serde_json::json;
+use std::collections::HashMap;
+
+pub const HEADER: &str =
+    "From CC Require Import Base.Prelude Model.JoinTable Model.JoinImpl Model.JoinSpec.";
+
+// ------------------------------------------------------------------------------------ tables
+#[derive(Clone, Debug, PartialEq)]
+struct Col {
+    name: String,
+    st: ScalarType,
+    row_shape: Vec<u64>,
+    mask: Option<Vec<u8>>, // None for the null column and in the plain variant
+    rows: Vec<Vec<u128>>,
+}
+type Table = Vec<Col>;
+
+/// Decoded form of a column, what is compared with Coq and with the reference join.
+#[derive(Clone, Debug, PartialEq)]
+struct DCol {
+    name: String,
+    rs: usize,
+    mask: Vec<u8>,
+    rows: Vec<Vec<u128>>,
+}
+
+impl Col {
+    fn rs(&self) -> usize {
+        self.row_shape.iter().product::<u64>() as usize
+    }
+    fn n(&self) -> usize {
+        self.rows.len()
+    }
+    fn data_type(&self) -> Type {
+        let mut sh = vec![self.n() as u64];
+        sh.extend(self.row_shape.iter());
+        array_type(sh, self.st)
+    }
+    fn ty(&self) -> Type {
+        match &self.mask {
+            Some(_) => tuple_type(vec![array_type(vec![self.n() as u64], BIT), self.data_type()]),
+            None => self.data_type(),
+        }
+    }
+    fn value(&self) -> Value {
+        let flat: Vec<u128> = self.rows.iter().flatten().cloned().collect();
+        let d = Value::from_flattened_array(&flat, self.st).unwrap();
+        match &self.mask {
+            Some(m) => Value::from_vector(vec![Value::from_flattened_array(m, BIT).unwrap(), d]),
+            None => d,
+        }
+    }
+    fn decoded(&self) -> DCol {
+        DCol { name: self.name.clone(), rs: self.rs(), mask: self.mask.clone().unwrap_or_default(), rows: self.rows.clone() }
+    }
+}
+fn table_type(t: &Table) -> Type {
+    named_tuple_type(t.iter().map(|c| (c.name.clone(), c.ty())).collect())
+}
+fn table_value(t: &Table) -> Value {
+    Value::from_vector(t.iter().map(|c| c.value()).collect())
+}
+fn coq_name(n: &str) -> String {
+    if n == NULL_HEADER { "null_header".to_string() } else { coq_string(n) }
+}
+fn coq_dtable(t: &[DCol]) -> String {
+    list(t, |c| {
+        format!(
+            "({}, mkcol {} {} {})",
+            coq_name(&c.name),
+            c.rs,
+            list_u8(&c.mask),
+            list(&c.rows, |r| list_u128(r))
+        )
+    })
+}
+fn coq_table(t: &Table) -> String {
+    let d: Vec<DCol> = t.iter().map(|c| c.decoded()).collect();
+    coq_dtable(&d)
+}
+fn coq_keys(keys: &[(String, String)]) -> String {
+    list(keys, |(a, b)| format!("({}, {})", coq_string(a), coq_string(b)))
+}
+fn coq_jt(jt: JoinType) -> &'static str {
+    match jt {
+        JoinType::Inner => "JInner",
+        JoinType::Left => "JLeft",
+        JoinType::Union => "JUnion",
+        JoinType::Full => "JFull",
+    }
+}
+fn wmask(st: ScalarType) -> u128 {
+    let w = st.size_in_bits();
+    if w >= 128 { u128::MAX } else { (1u128 << w) - 1 }
+}
+
+/// Decodes the output named tuple with the typed accessors, by the node's type.
+fn decode(v: &Value, t: &Type, masked: bool) -> ciphercore_base::errors::Result<Vec<DCol>> {
+    let cols = v.to_vector()?;
+    let nts = t.get_named_types()?;
+    let mut res = vec![];
+    for (i, (h, ct)) in nts.iter().enumerate() {
+        let (mask, dv, dt) = if masked && h != NULL_HEADER {
+            let pair = cols[i].to_vector()?;
+            let ts = get_types_vector(ct.clone())?;
+            let m = pair[0].to_flattened_array_u8((*ts[0]).clone())?;
+            (m, pair[1].clone(), (*ts[1]).clone())
+        } else {
+            (vec![], cols[i].clone(), ct.clone())
+        };
+        let shape = dt.get_shape();
+        let rs = shape[1..].iter().product::<u64>() as usize;
+        let wm = wmask(dt.get_scalar_type());
+        let flat: Vec<u128> = dv.to_flattened_array_u128(dt.clone())?.iter().map(|x| x & wm).collect();
+        let rows: Vec<Vec<u128>> = flat.chunks(rs.max(1)).map(|c| c.to_vec()).collect();
+        res.push(DCol { name: h.clone(), rs, mask, rows });
+    }
+    Ok(res)
+}
+
+// ------------------------------------------------------------- reference join (documentation)
+// Written from graphs.rs:1847-2015 and type_inference.rs:339-358, row by row: an output row starts
+// as the zero row and receives the data "that can be retrieved" from the contributing input rows.
+struct RefTable<'a> {
+    t: &'a Table,
+    masked: bool,
+}
+impl<'a> RefTable<'a> {
+    fn col(&self, h: &str) -> &Col {
+        self.t.iter().find(|c| c.name == h).unwrap()
+    }
+    fn n(&self) -> usize {
+        self.t[0].n()
+    }
+    fn live(&self, i: usize) -> bool {
+        self.col(NULL_HEADER).rows[i][0] != 0
+    }
+    fn mask(&self, h: &str, i: usize) -> u8 {
+        if self.masked { self.col(h).mask.as_ref().unwrap()[i] } else { 1 }
+    }
+    fn key_live(&self, khs: &[String], i: usize) -> bool {
+        self.live(i) && khs.iter().all(|h| self.mask(h, i) == 1)
+    }
+    fn key(&self, khs: &[String], i: usize) -> Vec<u128> {
+        khs.iter().flat_map(|h| self.col(h).rows[i].clone()).collect()
+    }
+    fn find(&self, khs: &[String], key: &[u128]) -> Option<usize> {
+        (0..self.n()).find(|&i| self.key_live(khs, i) && self.key(khs, i) == key)
+    }
+}
+struct RefOut {
+    cols: Vec<DCol>,
+    masked: bool,
+}
+impl RefOut {
+    fn push_zero_row(&mut self) {
+        for c in self.cols.iter_mut() {
+            c.rows.push(vec![0; c.rs]);
+            if self.masked && c.name != NULL_HEADER {
+                c.mask.push(0);
+            }
+        }
+    }
+    /// overwrite the entry of column `h` in the last row with entry `i` of column `src_h` of `src`
+    fn put(&mut self, h: &str, src: &RefTable, src_h: &str, i: usize) {
+        let c = self.cols.iter_mut().find(|c| c.name == h).unwrap();
+        let last = c.rows.len() - 1;
+        if h == NULL_HEADER {
+            c.rows[last] = vec![1];
+            return;
+        }
+        if src.mask(src_h, i) == 1 {
+            c.rows[last] = src.col(src_h).rows[i].clone();
+            if self.masked {
+                c.mask[last] = 1;
+            }
+        }
+    }
+}
+fn ref_join(jt: JoinType, masked: bool, a: &Table, b: &Table, keys: &[(String, String)]) -> Vec<DCol> {
+    let (ra, rb) = (RefTable { t: a, masked }, RefTable { t: b, masked });
+    let kh0: Vec<String> = keys.iter().map(|k| k.0.clone()).collect();
+    let kh1: Vec<String> = keys.iter().map(|k| k.1.clone()).collect();
+    let a_names: Vec<String> = a.iter().map(|c| c.name.clone()).collect();
+    let b_extra: Vec<&Col> = b.iter().filter(|c| !a_names.contains(&c.name) && !kh1.contains(&c.name)).collect();
+    let mut out = RefOut { cols: vec![], masked };
+    for c in a.iter().chain(b_extra.iter().cloned()) {
+        out.cols.push(DCol { name: c.name.clone(), rs: c.rs(), mask: vec![], rows: vec![] });
+    }
+    let put_a = |out: &mut RefOut, i: usize| {
+        for c in a.iter() {
+            out.put(&c.name, &ra, &c.name, i);
+        }
+    };
+    let put_b_extra = |out: &mut RefOut, j: usize| {
+        for c in b_extra.iter() {
+            out.put(&c.name, &rb, &c.name, j);
+        }
+    };
+    let match_in_b = |i: usize| if ra.key_live(&kh0, i) { rb.find(&kh1, &ra.key(&kh0, i)) } else { None };
+    let match_in_a = |j: usize| if rb.key_live(&kh1, j) { ra.find(&kh0, &rb.key(&kh1, j)) } else { None };
+    for i in 0..ra.n() {
+        out.push_zero_row();
+        let m = match_in_b(i);
+        match jt {
+            JoinType::Inner => {
+                if let Some(j) = m {
+                    put_a(&mut out, i);
+                    put_b_extra(&mut out, j);
+                }
+            }
+            JoinType::Left => {
+                if ra.live(i) {
+                    put_a(&mut out, i);
+                    if let Some(j) = m {
+                        put_b_extra(&mut out, j);
+                    }
+                }
+            }
+            JoinType::Union | JoinType::Full => {
+                if ra.live(i) && m.is_none() {
+                    put_a(&mut out, i);
+                }
+            }
+        }
+    }
+    if jt == JoinType::Union || jt == JoinType::Full {
+        for j in 0..rb.n() {
+            out.push_zero_row();
+            if !rb.live(j) {
+                continue;
+            }
+            if jt == JoinType::Full {
+                if let Some(i) = match_in_a(j) {
+                    put_a(&mut out, i);
+                }
+            }
+            out.put(NULL_HEADER, &rb, NULL_HEADER, j);
+            for (h0, h1) in keys {
+                // the key columns carry the second table's own entries (its own masks)
+                let c = out.cols.iter_mut().find(|c| &c.name == h0).unwrap();
+                let last = c.rows.len() - 1;
+                c.rows[last] = vec![0; c.rs];
+                if masked {
+                    c.mask[last] = 0;
+                }
+                out.put(h0, &rb, h1, j);
+            }
+            put_b_extra(&mut out, j);
+        }
+    }
+    out.cols
+}
+
+// --------------------------------------------------------------------------------- generator
+const KEY_TYPES: [ScalarType; 8] = [BIT, UINT8, INT8, UINT16, INT32, UINT64, INT64, UINT128];
+const ROW_SHAPES: [&[u64]; 6] = [&[], &[], &[2], &[3], &[2, 2], &[1]];
+
+fn rand_elem(st: ScalarType, small: bool, rng: &mut Rng) -> u128 {
+    let wm = wmask(st);
+    if st == BIT {
+        return rng.below(2) as u128;
+    }
+    if small {
+        // few values, so that key tuples often agree in some columns and differ in others
+        let w = st.size_in_bits();
+        let pool = [0u128, 1, 2, wm, 1u128 << (w - 1), (1u128 << (w - 1)) - 1];
+        return pool[rng.below(6) as usize] & wm;
+    }
+    rng.u128() & wm
+}
+fn rand_row(st: ScalarType, rs: usize, small: bool, rng: &mut Rng) -> Vec<u128> {
+    (0..rs).map(|_| rand_elem(st, small, rng)).collect()
+}
+
+#[derive(Clone)]
+struct KeyCol {
+    h0: String,
+    h1: String,
+    st: ScalarType,
+    row_shape: Vec<u64>,
+}
+#[derive(Clone, Copy, PartialEq, Debug)]
+enum RowKind {
+    Live(usize),
+    Null,
+    MaskedKey,
+}
+struct Instance {
+    a: Table,
+    b: Table,
+    keys: Vec<(String, String)>,
+    masked: bool,
+    overlap: &'static str,
+    live: (usize, usize),
+    nulls: (usize, usize),
+    masked_keys: (usize, usize),
+    null_first_b: bool,
+    dup: bool,
+}
+
+fn build_table(
+    which: usize,
+    kcs: &[KeyCol],
+    pool: &[Vec<Vec<u128>>],
+    kinds: &[RowKind],
+    n_payload: usize,
+    masked: bool,
+    null_first: bool,
+    shuffle: bool,
+    rng: &mut Rng,
+) -> Table {
+    let n = kinds.len();
+    let mut cols: Table = vec![];
+    let mut key_masks: Vec<Vec<u8>> = vec![vec![1; n]; kcs.len()];
+    for (r, k) in kinds.iter().enumerate() {
+        match k {
+            RowKind::MaskedKey => {
+                let z = rng.below(kcs.len() as u64) as usize;
+                for c in 0..kcs.len() {
+                    if c == z || rng.chance(1, 3) {
+                        key_masks[c][r] = 0;
+                    }
+                }
+            }
+            RowKind::Null => {
+                for c in 0..kcs.len() {
+                    key_masks[c][r] = rng.below(2) as u8;
+                }
+            }
+            _ => {}
+        }
+    }
+    for (c, kc) in kcs.iter().enumerate() {
+        let rs = kc.row_shape.iter().product::<u64>() as usize;
+        let rows: Vec<Vec<u128>> = kinds
+            .iter()
+            .map(|k| match k {
+                RowKind::Live(p) => pool[*p][c].clone(),
+                // void / masked rows: often the key of some live row (they must be ignored)
+                _ => {
+                    if !pool.is_empty() && rng.chance(2, 3) {
+                        pool[rng.below(pool.len() as u64) as usize][c].clone()
+                    } else {
+                        rand_row(kc.st, rs, true, rng)
+                    }
+                }
+            })
+            .collect();
+        cols.push(Col {
+            name: if which == 0 { kc.h0.clone() } else { kc.h1.clone() },
+            st: kc.st,
+            row_shape: kc.row_shape.clone(),
+            mask: if masked { Some(key_masks[c].clone()) } else { None },
+            rows,
+        });
+    }
+    for p in 0..n_payload {
+        let st = *rng.pick(&crate::gen::ALL_ST);
+        let row_shape = rng.pick(&ROW_SHAPES).to_vec();
+        let rs = row_shape.iter().product::<u64>() as usize;
+        let rows = (0..n).map(|_| { let small = rng.chance(1, 2); rand_row(st, rs, small, rng) }).collect();
+        let mask = if masked { Some((0..n).map(|_| if rng.chance(4, 5) { 1 } else { 0 }).collect()) } else { None };
+        cols.push(Col { name: format!("{}{}", if which == 0 { "pa" } else { "pb" }, p), st, row_shape, mask, rows });
+    }
+    if shuffle {
+        rng.shuffle(&mut cols);
+    }
+    let null = Col {
+        name: NULL_HEADER.to_string(),
+        st: BIT,
+        row_shape: vec![],
+        mask: None,
+        rows: kinds.iter().map(|k| vec![if *k == RowKind::Null { 0 } else { 1 }]).collect(),
+    };
+    let pos = if null_first { 0 } else { rng.below(cols.len() as u64 + 1) as usize };
+    cols.insert(pos, null);
+    cols
+}
+
+fn gen_instance(rng: &mut Rng, max_live: usize, small_types: bool, dup: bool, collide: bool) -> Instance {
+    let masked = rng.chance(1, 2);
+    let nk = 1 + rng.below(3) as usize;
+    let mut kcs = vec![];
+    for i in 0..nk {
+        let st = if small_types { *rng.pick(&[BIT, UINT8, INT16, UINT32]) } else { *rng.pick(&KEY_TYPES) };
+        let mut row_shape = rng.pick(&ROW_SHAPES).to_vec();
+        if st == BIT && rng.chance(2, 3) {
+            row_shape = vec![2 + rng.below(4)];
+        }
+        let h0 = format!("k{}", i);
+        let h1 = if rng.chance(1, 2) { h0.clone() } else { format!("j{}", i) };
+        kcs.push(KeyCol { h0, h1, st, row_shape });
+    }
+    // pool of distinct key tuples
+    let mut pool: Vec<Vec<Vec<u128>>> = vec![];
+    let small = rng.chance(3, 4);
+    for _ in 0..60 {
+        if pool.len() >= 16 {
+            break;
+        }
+        let k: Vec<Vec<u128>> = kcs.iter().map(|kc| rand_row(kc.st, kc.row_shape.iter().product::<u64>() as usize, small, rng)).collect();
+        if !pool.contains(&k) {
+            pool.push(k);
+        }
+    }
+    let mut la = rng.below(max_live as u64 + 1) as usize;
+    let mut lb = rng.below(max_live as u64 + 1) as usize;
+    let overlap = *rng.pick(&["disjoint", "partial", "partial", "full"]);
+    // indices into the pool of the live rows of each table
+    let (ia, ib): (Vec<usize>, Vec<usize>) = match overlap {
+        "disjoint" => {
+            while la + lb > pool.len() {
+                if la >= lb { la -= 1 } else { lb -= 1 }
+            }
+            ((0..la).collect(), (la..la + lb).collect())
+        }
+        "full" => {
+            la = la.min(pool.len());
+            lb = lb.min(pool.len());
+            let m = la.max(lb);
+            let mut x: Vec<usize> = (0..m).collect();
+            rng.shuffle(&mut x);
+            let mut y: Vec<usize> = (0..m).collect();
+            rng.shuffle(&mut y);
+            (x[..la].to_vec(), y[..lb].to_vec())
+        }
+        _ => {
+            la = la.min(pool.len());
+            lb = lb.min(pool.len());
+            let m = pool.len().min(1 + (la + lb) * 3 / 4).max(la).max(lb);
+            let mut x: Vec<usize> = (0..m).collect();
+            rng.shuffle(&mut x);
+            let mut y: Vec<usize> = (0..m).collect();
+            rng.shuffle(&mut y);
+            (x[..la].to_vec(), y[..lb].to_vec())
+        }
+    };
+    let mk_kinds = |idx: &Vec<usize>, rng: &mut Rng| -> (Vec<RowKind>, usize, usize) {
+        let mut kinds: Vec<RowKind> = idx.iter().map(|p| RowKind::Live(*p)).collect();
+        if dup && !idx.is_empty() {
+            // precondition deliberately broken: a live key twice (model of the hash map only)
+            kinds.push(RowKind::Live(idx[rng.below(idx.len() as u64) as usize]));
+        }
+        let mut nulls = rng.below(4) as usize;
+        let mks = if masked { rng.below(3) as usize } else { 0 };
+        if kinds.is_empty() && nulls + mks == 0 {
+            nulls = 1;
+        }
+        for _ in 0..nulls {
+            kinds.push(RowKind::Null);
+        }
+        for _ in 0..mks {
+            kinds.push(RowKind::MaskedKey);
+        }
+        rng.shuffle(&mut kinds);
+        (kinds, nulls, mks)
+    };
+    let (ka, na, ma) = mk_kinds(&ia, rng);
+    let (kb, nb, mb) = mk_kinds(&ib, rng);
+    let null_first_b = rng.chance(3, 4);
+    let (pa, pb) = (rng.below(3) as usize, rng.below(3) as usize);
+    let null_first_a = rng.chance(1, 2);
+    let (sha, shb) = (rng.chance(1, 2), rng.chance(1, 2));
+    let a = build_table(0, &kcs, &pool, &ka, pa, masked, null_first_a, sha, rng);
+    let b = build_table(1, &kcs, &pool, &kb, pb, masked, null_first_b, shb, rng);
+    let mut keys: Vec<(String, String)> = kcs.iter().map(|k| (k.h0.clone(), k.h1.clone())).collect();
+    rng.shuffle(&mut keys);
+    let mut a = a;
+    if collide {
+        // a payload column of the first table named like a key header of the second table
+        if let Some(k) = kcs.iter().find(|k| k.h0 != k.h1) {
+            if let Some(c) = a.iter_mut().find(|c| c.name.starts_with("pa")) {
+                c.name = k.h1.clone();
+            }
+        }
+    }
+    Instance { a, b, keys, masked, overlap, live: (la, lb), nulls: (na, nb), masked_keys: (ma, mb), null_first_b, dup }
+}
+
+// ----------------------------------------------------------------------------------- running
+fn observe_u<T, F: FnOnce() -> ciphercore_base::errors::Result<T>>(f: F) -> Outcome<T> {
+    match std::panic::catch_unwind(std::panic::AssertUnwindSafe(f)) {
+        Ok(Ok(x)) => Outcome::Ok(x),
+        Ok(Err(_)) => Outcome::Err,
+        Err(_) => Outcome::Panic,
+    }
+}
+
+fn join_context(inst: &Instance, jt: JoinType) -> ciphercore_base::errors::Result<Context> {
+    let c = create_context()?;
+    let g = c.create_graph()?;
+    let i0 = g.input(table_type(&inst.a))?;
+    let i1 = g.input(table_type(&inst.b))?;
+    let headers: HashMap<String, String> = inst.keys.iter().cloned().collect();
+    let op = if inst.masked { Operation::JoinWithColumnMasks(jt, headers) } else { Operation::Join(jt, headers) };
+    let o = g.add_node(vec![i0, i1], vec![], op)?;
+    g.set_output_node(o)?;
+    g.finalize()?;
+    c.set_main_graph(g)?;
+    c.finalize()?;
+    Ok(c)
+}
+
+fn describe(inst: &Instance, jt: JoinType) -> serde_json::Value {
+    json!({
+        "join": coq_jt(jt), "masked": inst.masked, "keys": inst.keys, "overlap": inst.overlap,
+        "a": coq_table(&inst.a), "b": coq_table(&inst.b),
+    })
+}
+
+fn plaintext(inst: &Instance, jt: JoinType) -> Outcome<Vec<DCol>> {
+    let (a, b, masked) = (inst.a.clone(), inst.b.clone(), inst.masked);
+    let inst_keys = inst.keys.clone();
+    let inst2 = Instance { a: a.clone(), b: b.clone(), keys: inst_keys, masked, overlap: inst.overlap, live: inst.live, nulls: inst.nulls, masked_keys: inst.masked_keys, null_first_b: inst.null_first_b, dup: inst.dup };
+    observe(move || {
+        let c = join_context(&inst2, jt)?;
+        let g = c.get_main_graph()?;
+        let t = g.get_output_node()?.get_type()?;
+        let v = random_evaluate(g, vec![table_value(&a), table_value(&b)])?;
+        decode(&v, &t, masked)
+    })
+}
+
+const JTS: [JoinType; 4] = [JoinType::Inner, JoinType::Left, JoinType::Union, JoinType::Full];
+
+fn run_plain(inst: &Instance, collide: bool, out: &mut Out) {
+    for &jt in JTS.iter() {
+        let input = describe(inst, jt);
+        let r = plaintext(inst, jt);
+        out.stat(&format!("jt:{}", coq_jt(jt)));
+        out.stat(&format!("plain:{}:{}", coq_jt(jt), r.tag()));
+        let tabs = format!("{} {} {}", coq_table(&inst.a), coq_table(&inst.b), coq_keys(&inst.keys));
+        let args = format!("{} {} {}", coq_jt(jt), inst.masked, tabs);
+        let sargs = format!("{} {} {}", inst.masked, coq_jt(jt), tabs);
+        // non-trivial: some live row on both sides, or a void row / a masked key entry
+        let nontrivial = (inst.live.0 > 0 && inst.live.1 > 0) || inst.nulls.0 + inst.nulls.1 > 0 || inst.masked_keys.0 + inst.masked_keys.1 > 0;
+        let known_collision_failure = collide && !matches!(r, Outcome::Ok(_));
+        if !known_collision_failure {
+            // (a failing full join on the header-collision stream is reported by the oracle below;
+            // that failure path of /repo — a decode error after two columns got one name — is not mirrored)
+        out.case(if inst.dup { "join_impl_dupkeys" } else { "join_impl" }, format!("join_impl {}", args), res(&r, |t| coq_dtable(t)), input.clone(), nontrivial);
+        }
+        if inst.dup {
+            continue; // outside the documented precondition: only the mirrored algorithm is tied
+        }
+        let full_plain_nullpos = jt == JoinType::Full && !inst.masked && !inst.null_first_b;
+        match &r {
+            Outcome::Ok(t) => {
+                out.case("join_spec", format!("join_spec {}", sargs), coq_dtable(t), input.clone(), nontrivial);
+                let exp = ref_join(jt, inst.masked, &inst.a, &inst.b, &inst.keys);
+                if *t != exp {
+                    let bad: Vec<&String> = t.iter().zip(exp.iter()).filter(|(x, y)| x != y).map(|(x, _)| &x.name).collect();
+                    out.violation(&format!("plain-{}-differs-from-documentation", coq_jt(jt)), input.clone(), format!("columns {:?}; observed {} expected {}", bad, coq_dtable(t), coq_dtable(&exp)));
+                } else {
+                    out.oracle_ok();
+                }
+            }
+            _ => {
+                if collide {
+                    out.stat(&format!("collide:{}:{}", coq_jt(jt), r.tag()));
+                    out.violation(&format!("plain-{}-fails-key-header-of-second-names-column-of-first", coq_jt(jt)), input.clone(), format!("evaluation {} on a join accepted by type inference", r.tag()));
+                } else if full_plain_nullpos {
+                    // join.rs:435 get_number_of_rows (fixed in /repo by ff0361d); class kept separate
+                    out.stat("full-join-plain-null-column-not-first:Err");
+                    out.violation("plain-JFull-rejected-null-column-of-second-table-not-first", input.clone(), format!("evaluation {} on a well-typed full join", r.tag()));
+                } else {
+                    out.violation(&format!("plain-{}-fails", coq_jt(jt)), input.clone(), format!("evaluation {} on a valid join", r.tag()));
+                }
+            }
+        }
+    }
+}
+
+fn run_compiled(inst: &Instance, jt: JoinType, owners: (u8, u8), seeds: u64, rng: &mut Rng, out: &mut Out) {
+    let input = describe(inst, jt);
+    let status = |o: u8| if o == 3 { IOStatus::Public } else { IOStatus::Party(o as u64) };
+    let exp = ref_join(jt, inst.masked, &inst.a, &inst.b, &inst.keys);
+    let c = match join_context(inst, jt) {
+        Ok(c) => c,
+        Err(_) => return,
+    };
+    let compiled = std::panic::catch_unwind(std::panic::AssertUnwindSafe(|| {
+        prepare_for_mpc_evaluation(
+            &c,
+            vec![vec![status(owners.0), status(owners.1)]],
+            vec![vec![IOStatus::Party(0)]],
+            InlineConfig { default_mode: InlineMode::DepthOptimized(DepthOptimizationLevel::Default), ..Default::default() },
+        )
+    }));
+    let mc = match compiled {
+        Ok(Ok(mc)) => mc.get_context(),
+        Ok(Err(e)) => {
+            out.stat("compiled:compile-Err");
+            out.violation("compiled-join-does-not-compile", input, format!("{}", e).chars().take(300).collect());
+            return;
+        }
+        Err(_) => {
+            out.violation("compiled-join-compile-panics", input, "panic in prepare_for_mpc_evaluation".into());
+            return;
+        }
+    };
+    let g = mc.get_main_graph().unwrap();
+    let t = g.get_output_node().unwrap().get_type().unwrap();
+    out.stat(&format!("compiled:owners:{}{}", owners.0, owners.1));
+    out.stat(&format!("compiled:jt:{}", coq_jt(jt)));
+    for _ in 0..seeds {
+        let mut seed = [0u8; 16];
+        for s in seed.iter_mut() {
+            *s = rng.next() as u8;
+        }
+        let (g2, a, b, t2, masked) = (g.clone(), inst.a.clone(), inst.b.clone(), t.clone(), inst.masked);
+        let r = observe_u(move || {
+            let v = evaluate_simple_evaluator(g2, vec![table_value(&a), table_value(&b)], Some(seed))?;
+            decode(&v, &t2, masked)
+        });
+        out.stat(&format!("compiled:eval:{}", r.tag()));
+        match r {
+            Outcome::Ok(tb) => {
+                if tb != exp {
+                    let (mut x, mut y) = (tb.clone(), exp.clone());
+                    x.sort_by(|p, q| p.name.cmp(&q.name));
+                    y.sort_by(|p, q| p.name.cmp(&q.name));
+                    let class = if x == y && tb[0].name == NULL_HEADER {
+                        // same columns, only their order differs and the null column comes first
+                        "compiled-join-null-column-moved-first".to_string()
+                    } else {
+                        format!("compiled-{}-wrong-table", coq_jt(jt))
+                    };
+                    out.violation(&class, input.clone(), format!("seed {:?}: observed {} expected {}", seed, coq_dtable(&tb), coq_dtable(&exp)));
+                } else {
+                    out.oracle_ok();
+                }
+            }
+            Outcome::Err => {} // a failed cuckoo insertion is a legitimate run-time error
+            Outcome::Panic => out.violation("compiled-join-panics", input.clone(), format!("seed {:?}", seed)),
+        }
+    }
+}
+
+pub fn run(tier: &str, seed: u64, out: &mut Out) {
+    let mut rng = Rng::new(seed ^ 0xC19);
+    let (n_plain, n_dup, n_collide, n_comp, comp_seeds) = match tier {
+        "thorough" => (800, 100, 60, 24, 3),
+        "search" => (6000, 0, 100, 60, 3),
+        _ => (75, 10, 8, 3, 2),
+    };
+    for i in 0..n_plain {
+        let max_live = if i % 5 == 0 { 2 } else { 8 };
+        let inst = gen_instance(&mut rng, max_live, false, false, false);
+        out.stat(&format!("masked:{}", inst.masked));
+        out.stat(&format!("overlap:{}", inst.overlap));
+        out.stat(&format!("nkeys:{}", inst.keys.len()));
+        out.stat(&format!("live_a:{}", inst.live.0));
+        out.stat(&format!("live_b:{}", inst.live.1));
+        out.stat(&format!("rows_a:{}", inst.a[0].n()));
+        out.stat(&format!("void_rows:{}", inst.nulls.0 + inst.nulls.1));
+        out.stat(&format!("masked_key_rows:{}", inst.masked_keys.0 + inst.masked_keys.1));
+        for c in inst.a.iter().filter(|c| inst.keys.iter().any(|k| k.0 == c.name)) {
+            out.stat(&format!("keytype:{}:rs{}", scalar(c.st), c.rs()));
+        }
+        run_plain(&inst, false, out);
+    }
+    for _ in 0..n_dup {
+        let inst = gen_instance(&mut rng, 4, false, true, false);
+        run_plain(&inst, false, out);
+    }
+    for _ in 0..n_collide {
+        let inst = gen_instance(&mut rng, 4, false, false, true);
+        out.stat("stream:key-header-collision");
+        run_plain(&inst, true, out);
+    }
+    for i in 0..n_comp {
+        let inst = gen_instance(&mut rng, 3, true, false, false);
+        let jt = JTS[i % 4];
+        let owners = [(0u8, 1u8), (0, 0), (1, 3), (3, 2), (2, 0)][(i / 4) % 5];
+        run_compiled(&inst, jt, owners, comp_seeds, &mut rng, out);
+    }
+}
